@@ -23,7 +23,7 @@ func init() {
 		Title: "Registering a name charges the listed price and yields a live name for the term",
 		Cases: func(t string) int { return tierN(t, 300, 5000) },
 		Run:   runC16,
-		Rule: "case = one chain with 3 names seeded in genesis (label lengths 1..8, both TLDs, owners a0..a3, expiry heights 3..11, optionally one long-lived) run for ~14-20 blocks; 14..24 registrations (MsgRegisterName and the deprecated MsgRegister, labels mixed-case, occasionally with a space) of seeded / fresh / previously registered names by owner / previous owner (made by a transfer) / stranger, at heights before, exactly at, one after and long after the seeded expiry, with year counts from {1, 2..20, 0, -1, 1e12, 2^31, 2^62, MaxInt64, MinInt64} and, per price tier, ceil(k*2^64/price) (int64 product with the price wraps to a small positive amount) and ceil(k*2^64/5484530)+-1 (term in blocks wraps); accounts hold 1e24 ujkl so that even wrapped prices are affordable; " +
+		Rule: "case = one chain with 3 names seeded in genesis (label lengths 1..8, both TLDs, owners a0..a3, expiry heights 3..11, optionally one long-lived) run for ~14-20 blocks; 14..24 registrations (MsgRegisterName and the deprecated MsgRegister, labels mixed-case, occasionally with a space) of seeded / fresh / previously registered names by owner / previous owner (made by a transfer) / stranger, at heights before, exactly at, one after and long after the seeded expiry, plus free names handed out by MsgInit and then paid for by their holder while still locked, with year counts from {1, 2..20, 0, -1, 1e12, 2^31, 2^62, MaxInt64, MinInt64} and, per price tier, ceil(k*2^64/price) (int64 product with the price wraps to a small positive amount) and ceil(k*2^64/5484530)+-1 (term in blocks wraps); accounts hold 1e24 ujkl so that even wrapped prices are affordable; " +
 			"every registration is one oracle evaluation: on success registrant debited exactly years*GetCostOfName (big integers), protocol-liquidity account credited exactly that, nobody else (rns module included) moves, Name resolves to the registrant, fresh/expired name: Expires >= h + years*5484530, live name renewed by its owner: Expires grows by exactly years*5484530, live name (h <= Expires) never registered by a non-owner; on rejection nothing moves; " +
 			"non-trivial signature = (label-length tier x TLD, year class, registrant role in {fresh, owner, prev-owner, stranger}, height relative to the previous expiry in {never-registered, long-before, one-before, at, one-after, long-after}, accepted/rejected)",
 		Assumptions: []string{
@@ -231,6 +231,7 @@ func runC16(rc *RunCtx) {
 	if rc.Chance(0.25) {
 		hInit = 2 + int64(rc.Intn(int(last)-1))
 	}
+	var freeNames []string
 	for h := int64(1); h <= last; h++ {
 		if h > 1 {
 			if !w.Block() {
@@ -250,6 +251,32 @@ func runC16(rc *RunCtx) {
 			}
 			if _, ok := w.Do(i, &rnstypes.MsgInit{Creator: c.Accs[i].Bech}); !ok {
 				return
+			}
+		}
+		// free names: an account that has not used Init yet takes the free name of this height; later on the holder of
+		// a free name (still inside its lock period) pays for further years - a renewal like any other
+		if h != hInit && h != hInit-1 && rc.Chance(0.15) {
+			i := rc.Intn(nacc)
+			free := rnstypes.MakeName(int(h), h) + ".jkl"
+			if w.st.Names[free] == nil {
+				if _, ok := w.Do(i, &rnstypes.MsgInit{Creator: c.Accs[i].Bech}); !ok {
+					return
+				}
+				if P := w.st.Names[free]; P != nil {
+					pool = append(pool, free)
+					freeNames = append(freeNames, free)
+				}
+			}
+		}
+		if len(freeNames) > 0 && rc.Chance(0.35) {
+			full := freeNames[rc.Intn(len(freeNames))]
+			if P := w.st.Names[full]; P != nil {
+				if o := idx(P.Owner); o >= 0 {
+					if !register(o, full, rc.Pick([]int64{1, 1, 2, 5})) {
+						return
+					}
+					rc.Count("free_name_renewals_by_holder", 1)
+				}
 			}
 		}
 		// an early transfer creates a previous owner distinct from the owner
